@@ -15,6 +15,7 @@ import (
 	"sort"
 	"strings"
 	rsync "sync"
+	"unsafe"
 )
 
 // ---------------------------------------------------------------------------------------------
@@ -125,6 +126,7 @@ type exec struct {
 	running    *thread
 	last       *thread
 	sched      chan struct{}
+	finish     chan struct{}
 	prefix     []int
 	x          *Execution
 	mem        map[uintptr]*shadow
@@ -136,6 +138,8 @@ type exec struct {
 }
 
 type resetter interface{ vreset() }
+
+const stackWindow = 256 << 10
 
 var cur *exec
 
@@ -248,6 +252,13 @@ func access(addr uintptr, name, where string, write bool) {
 	}
 	t := e.running
 	if t == nil {
+		return
+	}
+	// Addresses on the running goroutine's own stack are not shared locations (value receivers,
+	// locals); a stack may be handed from one goroutine to another by the runtime without any
+	// synchronisation the detector could see, so they are not tracked.
+	var probe byte
+	if sp := uintptr(unsafe.Pointer(&probe)); addr >= sp && addr < sp+stackWindow {
 		return
 	}
 	s := e.mem[addr]
@@ -584,7 +595,7 @@ func RunOnce(bodies []Body, prefix []int, trackRaces bool, horizon int) *Executi
 	if horizon <= 0 {
 		horizon = 10000
 	}
-	e := &exec{sched: make(chan struct{}), prefix: prefix, x: &Execution{Panics: map[int]string{}},
+	e := &exec{sched: make(chan struct{}), finish: make(chan struct{}), prefix: prefix, x: &Execution{Panics: map[int]string{}},
 		mem: map[uintptr]*shadow{}, raceSeen: map[string]bool{}, horizon: horizon, trackRaces: trackRaces}
 	chanVC = map[uintptr]*VC{}
 	n := len(bodies)
@@ -607,6 +618,7 @@ func RunOnce(bodies []Body, prefix []int, trackRaces bool, horizon int) *Executi
 				}
 				t.done = true
 				e.sched <- struct{}{}
+				<-e.finish // keep the goroutine (and its stack) alive until the execution is over
 			}()
 			e.yield(&pendingOp{kind: opStart, label: "start"})
 			t.body()
@@ -686,6 +698,7 @@ func RunOnce(bodies []Body, prefix []int, trackRaces bool, horizon int) *Executi
 	e.x.Steps = len(e.x.Points)
 	// parked threads of a deadlocked / cut execution are abandoned (their goroutines leak)
 	cur = nil
+	close(e.finish)
 	for _, o := range e.objs {
 		o.vreset()
 	}
